@@ -304,16 +304,21 @@ class VariableElimination(Inference):
 
         # Step 2: If virtual_evidence is provided, modify the network.
         if isinstance(self.model, BayesianNetwork) and (virtual_evidence is not None):
+            # The engine works on an augmented copy for this call only.
+            orig_model = self.model
             self._virtual_evidence(virtual_evidence)
             virt_evidence = {"__" + cpd.variables[0]: 0 for cpd in virtual_evidence}
-            return self.query(
-                variables=variables,
-                evidence={**evidence, **virt_evidence},
-                virtual_evidence=None,
-                elimination_order=elimination_order,
-                joint=joint,
-                show_progress=show_progress,
-            )
+            try:
+                return self.query(
+                    variables=variables,
+                    evidence={**evidence, **virt_evidence},
+                    virtual_evidence=None,
+                    elimination_order=elimination_order,
+                    joint=joint,
+                    show_progress=show_progress,
+                )
+            finally:
+                self.__init__(orig_model)
 
         # Step 3: Prune the network based on variables and evidence.
         if isinstance(self.model, BayesianNetwork):
@@ -554,15 +559,20 @@ class VariableElimination(Inference):
             )
 
         if isinstance(self.model, BayesianNetwork) and (virtual_evidence is not None):
+            # The engine works on an augmented copy for this call only.
+            orig_model = self.model
             self._virtual_evidence(virtual_evidence)
             virt_evidence = {"__" + cpd.variables[0]: 0 for cpd in virtual_evidence}
-            return self.map_query(
-                variables=variables,
-                evidence={**evidence, **virt_evidence},
-                virtual_evidence=None,
-                elimination_order=elimination_order,
-                show_progress=show_progress,
-            )
+            try:
+                return self.map_query(
+                    variables=variables,
+                    evidence={**evidence, **virt_evidence},
+                    virtual_evidence=None,
+                    elimination_order=elimination_order,
+                    show_progress=show_progress,
+                )
+            finally:
+                self.__init__(orig_model)
 
         if isinstance(self.model, BayesianNetwork):
             model_reduced, evidence = self._prune_bayesian_model(variables, evidence)
@@ -1107,15 +1117,20 @@ class BeliefPropagation(Inference):
 
         # Step 2: If virtual_evidence is provided, modify model and evidence.
         if isinstance(self.model, BayesianNetwork) and (virtual_evidence is not None):
+            # The engine works on an augmented copy for this call only.
+            orig_model = self.model
             self._virtual_evidence(virtual_evidence)
             virt_evidence = {"__" + cpd.variables[0]: 0 for cpd in virtual_evidence}
-            return self.query(
-                variables=variables,
-                evidence={**evidence, **virt_evidence},
-                virtual_evidence=None,
-                joint=joint,
-                show_progress=show_progress,
-            )
+            try:
+                return self.query(
+                    variables=variables,
+                    evidence={**evidence, **virt_evidence},
+                    virtual_evidence=None,
+                    joint=joint,
+                    show_progress=show_progress,
+                )
+            finally:
+                self.__init__(orig_model)
 
         # Step 3: Do network pruning.
         if isinstance(self.model, BayesianNetwork):
@@ -1206,14 +1221,19 @@ class BeliefPropagation(Inference):
         orig_model = self.model.copy()
 
         if isinstance(self.model, BayesianNetwork) and (virtual_evidence is not None):
+            # The engine works on an augmented copy for this call only.
+            orig_model = self.model
             self._virtual_evidence(virtual_evidence)
             virt_evidence = {"__" + cpd.variables[0]: 0 for cpd in virtual_evidence}
-            return self.map_query(
-                variables=variables,
-                evidence={**evidence, **virt_evidence},
-                virtual_evidence=None,
-                show_progress=show_progress,
-            )
+            try:
+                return self.map_query(
+                    variables=variables,
+                    evidence={**evidence, **virt_evidence},
+                    virtual_evidence=None,
+                    show_progress=show_progress,
+                )
+            finally:
+                self.__init__(orig_model)
 
         if isinstance(self.model, BayesianNetwork):
             self.model, evidence = self._prune_bayesian_model(variables, evidence)
